@@ -77,6 +77,37 @@ def phase_paths(run, pool):
                                             "wall_s": round(time.time() - t, 1)}
 
 
+def phase_threads(run, pool):
+    """C17: caller threads under the baton scheduler (sim/threads.py): seeded interleavings of 2-3 caller threads (each its
+    own operators and keys, some sharing an operator) plus a thread drawing from np.random, and the systematic
+    single-pre-emption sweep over every distinct source line."""
+    from . import threads as T
+    t = time.time()
+    n0 = run.evals
+    nrand = 150 if run.tier == "quick" else 3000
+    sweeps = T.line_sweep_programs()
+    if run.tier == "quick":
+        sweeps = [p for p in sweeps if p["name"].endswith("<-hutch")]
+    jobs = [{"id": "thr-sweep-%d" % i, "kind": "program", "program": p["program"], "name": p["name"], "want_program": True,
+             "deadline": 900, "run_seed": p["name"]} for i, p in enumerate(sweeps)]
+    for p in T.sweep_programs(run.seed, 1 if run.tier == "quick" else 6):
+        jobs.append({"id": p["name"], "kind": "program", "program": p["program"], "name": p["name"], "want_program": True,
+                     "deadline": 240, "run_seed": p["name"]})
+    import random as _random
+    for i in range(nrand):
+        rs = P.derive_seed(run.seed, "C17-threads", run.tier, i)
+        jobs.append({"id": "thr-%d" % i, "kind": "program", "program": T.gen(_random.Random(rs), rs, run.tier), "want_program": True,
+                     "deadline": 240, "run_seed": rs})
+    pool.run(jobs, run.absorb)
+    run.phase_info["caller_threads"] = {
+        "histories": run.evals - n0, "line_sweep_programs": len(sweeps), "routine_pair_programs": len(jobs) - len(sweeps) - nrand,
+        "random_histories": nrand, "threaded_executions": int(run.stats.get("thread_runs", 0)),
+        "preemption_points_passed": int(run.stats.get("thread_preemption_points", 0)),
+        "baton_switches": int(run.stats.get("thread_switches", 0)),
+        "distinct_lines_preempted_once_each": int(run.stats.get("thread_distinct_lines_preempted", 0)),
+        "wall_s": round(time.time() - t, 1)}
+
+
 def phase_crash(run, pool, progs, max_jobs):
     t = time.time()
     if len(progs) > max_jobs:
@@ -116,6 +147,8 @@ def run_property(prop, tier, seed, workers=None, budget=None):
                 phase_panel(run, pool)
                 phase_paths(run, pool)
                 phase_crash(run, pool, P.crash_programs_c17(seed), B["crash_jobs"][prop])
+                if not run.violations and not run.harness:
+                    phase_threads(run, pool)
             else:
                 from . import program18 as P18
                 P18.phase_sweep(run, pool, B["sweep_len"])
